@@ -1,4 +1,5 @@
 """C07 - the outcome of a position is classified exactly."""
+from . import shared
 from . import outcomerules
 
 
@@ -18,3 +19,5 @@ def run(ctx):
     outcomerules.calc_outcome_rule(ctx, facts, "O1")
     outcomerules.insufficient_rule(ctx, facts, "O2")
     outcomerules.has_legal_moves_rule(ctx, facts, "O3")
+    shared.legality_component(ctx, facts, "O4", "has_legal_moves and therefore mate/stalemate use the legality filter")
+    shared.attack_component(ctx, facts, "O5", "is_check decides between checkmate and stalemate")
